@@ -26,6 +26,7 @@ type opDef struct {
 	Follow string
 	Resp   []fieldDef
 	Var    string
+	Block  int // raw responses made of fixed-size blocks (sector reads)
 }
 
 type protoTable struct {
@@ -50,6 +51,7 @@ func loadProto(path string) (*protoTable, error) {
 			Follow string          `json:"follow"`
 			Resp   [][]interface{} `json:"resp"`
 			Var    string          `json:"var"`
+			Block  int             `json:"block"`
 		} `json:"ops"`
 		DirEntry   [][]interface{} `json:"direntry"`
 		CommandLen int             `json:"commandLen"`
@@ -62,7 +64,7 @@ func loadProto(path string) (*protoTable, error) {
 		return fieldDef{Name: l[0].(string), Width: int(l[1].(float64)), Signed: l[2].(bool)}
 	}
 	for _, o := range j.Ops {
-		od := opDef{Name: o.Name, Kind: o.Kind, Code: o.Code, Follow: o.Follow, Var: o.Var}
+		od := opDef{Name: o.Name, Kind: o.Kind, Code: o.Code, Follow: o.Follow, Var: o.Var, Block: o.Block}
 		for _, t := range o.Tail {
 			od.Tail = append(od.Tail, fieldDef{Name: t[0].(string), Off: int(t[1].(float64)), Width: int(t[2].(float64))})
 		}
@@ -121,6 +123,7 @@ type frame struct {
 	Args   map[string]uint64 // decoded tail
 	Follow []byte            // path or payload bytes present
 	Bytes  []byte            // the raw bytes of this frame
+	Of     string            // for TRUNCATED: the op whose frame was cut ("" if not even the opcode is known)
 }
 
 // reframe parses a byte stream the way the protocol defines it.
@@ -146,6 +149,7 @@ func (pt *protoTable) reframe(b []byte) []frame {
 		if od.Follow != "none" {
 			want := int(fr.Args["len"])
 			if len(b)-n < want {
+				fr.Of = fr.Op
 				fr.Op = "TRUNCATED"
 				fr.Bytes = b
 				res = append(res, fr)
